@@ -6,7 +6,7 @@
 //   lim(t)   pos + span.len(): end of the window   ( == toks.len() unless a reservation narrowed the window )
 //   cur(t)   what peek()/take() yield: the token at pos, or a VIRTUAL EndOfSource when the window is exhausted
 //   ok_at(t, e)  t is a cursor of the window ending at e (possibly one step beyond it, with an empty span)
-//   live(t)  ok and take() is safe (pos < toks.len(): Tokens::advance's debug_assert)
+//   live(t)  ok and take() is allowed: pos <= endp (in particular pos < toks.len(): Tokens::advance's debug_assert)
 //   rem(t)   number of tokens that can still be consumed: the termination measure and the node-budget credit
 // Node buffer (parse_tree.rs `ParseBuffer`): cells [0, num_nodes) initialised, capacity fits 24-bit ids,
 //   the active private zone / open lists name cells that still hold their placeholder.
@@ -24,20 +24,13 @@ pub open spec fn ok_at(t: Tokens, e: int) -> bool {
 	&&& pos(t) <= toks(t).len()
 	&&& (if pos(t) <= e { t.span@ =~= toks(t).subrange(pos(t), e) } else { t.span@.len() == 0 })
 }
-pub open spec fn live(t: Tokens) -> bool { ok_at(t, lim(t)) && pos(t) < toks(t).len() }
-pub open spec fn tok_at(t: Tokens, j: int) -> BaseToken { if 0 <= j < lim(t) && j < toks(t).len() { toks(t)[j] } else { BaseToken::EndOfSource } }
-pub open spec fn cur(t: Tokens) -> BaseToken { tok_at(t, pos(t)) }
-// last position that can be consumed: the virtual EndOfSource of a reservation, or the final real EndOfSource
-pub open spec fn endp(t: Tokens) -> int { if lim(t) >= toks(t).len() { toks(t).len() - 1 } else { lim(t) } }
+pub open spec fn live(t: Tokens) -> bool { ok_at(t, lim(t)) && pos(t) <= endp(t) }
+pub open spec fn cur(t: Tokens) -> BaseToken { tokv(toks(t), lim(t), pos(t)) }
+// last position that may be consumed: the virtual EndOfSource of a reservation, or the FIRST of the two final
+// EndOfSource tokens (the second one is the sentinel that skip_until relies on and is never consumed)
+pub open spec fn endp(t: Tokens) -> int { if lim(t) >= toks(t).len() - 2 { toks(t).len() - 2 } else { lim(t) } }
 pub open spec fn rem(t: Tokens) -> int { endp(t) + 1 - pos(t) }
 pub open spec fn unreserved(t: Tokens) -> bool { lim(t) == toks(t).len() }
-// t1 continues t0 (same token list, same window) and nothing was consumed AFTER an EndOfSource was read
-pub open spec fn follows(t0: Tokens, t1: Tokens) -> bool {
-	&&& t1.tokens == t0.tokens
-	&&& ok_at(t1, lim(t0))
-	&&& pos(t0) <= pos(t1) <= endp(t0) + 1
-	&&& forall|j: int| pos(t0) <= j < pos(t1) - 1 ==> #[trigger] tok_at(t0, j) != BaseToken::EndOfSource
-}
 pub open spec fn has_message(e: BaseToken) -> bool {
 	e == BaseToken::Assignment || e == BaseToken::BraceLeft || e == BaseToken::BraceRight || e == BaseToken::BracketLeft
 	|| e == BaseToken::BracketRight || e == BaseToken::Dot || e == BaseToken::ParenLeft || e == BaseToken::ParenRight
@@ -75,4 +68,51 @@ pub open spec fn appended(b0: ParseBuffer, b1: ParseBuffer, n: int) -> bool {
 	&&& b1.num_nodes == b0.num_nodes + n
 	&&& b1.active_private_zone == b0.active_private_zone
 	&&& forall|i: int| 0 <= i < b0.num_nodes ==> mu_val(b1.nodes@[i]) == mu_val(#[trigger] b0.nodes@[i])
+}
+
+// ---- the uniform contract of the parse_* functions -------------------------------------------
+pub open spec fn tokv(ts: Seq<BaseToken>, e: int, j: int) -> BaseToken { if 0 <= j < e && j < ts.len() { ts[j] } else { BaseToken::EndOfSource } }
+// no EndOfSource (real or virtual) among positions [a, b)
+pub open spec fn clean(ts: Seq<BaseToken>, e: int, a: int, b: int) -> bool { forall|j: int| a <= j < b ==> #[trigger] tokv(ts, e, j) != BaseToken::EndOfSource }
+pub open spec fn kk() -> int { KKK }
+// entry condition: live cursor, buffer invariant, and enough room: K nodes per remaining token plus K slack
+pub open spec fn pre(t: Tokens, b: ParseBuffer) -> bool {
+	live(t) && pb_inv(b) && b.num_nodes + kk() * rem(t) + kk() <= b.nodes@.len()
+}
+// exit condition (Ok and Err alike): same token list and window; nothing consumed after an EndOfSource; at most one
+// step beyond the window; buffer only extended; at most K nodes per consumed token plus the function's constant c
+pub open spec fn post(t0: Tokens, b0: ParseBuffer, t1: Tokens, b1: ParseBuffer, c: int) -> bool {
+	&&& t1.tokens == t0.tokens && ok_at(t1, lim(t0)) && pos(t0) <= pos(t1) <= endp(t0) + 1
+	&&& clean(toks(t0), lim(t0), pos(t0), pos(t1) - 1)
+	&&& pb_inv(b1) && extends(b0, b1)
+	&&& b1.num_nodes - b0.num_nodes <= kk() * (pos(t1) - pos(t0)) + c
+}
+// on success the cursor is still live in the same window and every consumed token was a real, non-EndOfSource token
+pub open spec fn post_ok(t0: Tokens, t1: Tokens) -> bool {
+	live(t1) && lim(t1) == lim(t0) && clean(toks(t0), lim(t0), pos(t0), pos(t1))
+}
+// loop invariant relative to the entry snapshots t0 / b0
+pub open spec fn linv(t0: Tokens, b0: ParseBuffer, t: Tokens, b: ParseBuffer, c: int) -> bool {
+	&&& pre(t0, b0)
+	&&& t.tokens == t0.tokens && live(t) && lim(t) == lim(t0) && pos(t0) <= pos(t)
+	&&& clean(toks(t0), lim(t0), pos(t0), pos(t))
+	&&& pb_inv(b) && extends(b0, b)
+	&&& b.num_nodes - b0.num_nodes <= kk() * (pos(t) - pos(t0)) + c
+}
+// an open list created inside the current function: its last item is still a placeholder and lies above the entry mark
+pub open spec fn list_in(b0: ParseBuffer, b: ParseBuffer, l: Option<ActiveList>) -> bool {
+	list_ok(b, l) && (l is Some ==> u24v(l->0.last_node.0) >= b0.num_nodes)
+}
+// the declaration list of the buffer is untouched
+pub open spec fn decls_same(b0: ParseBuffer, b1: ParseBuffer) -> bool {
+	b1.declarations@ == b0.declarations@ && vec_cap(*b1.declarations) == vec_cap(*b0.declarations)
+}
+// a window that is clean for a narrow limit is clean for any wider limit (the tokens are real ones)
+proof fn lemma_clean_widen(ts: Seq<BaseToken>, e1: int, e2: int, a: int, b: int)
+	requires clean(ts, e1, a, b), e1 <= e2
+	ensures clean(ts, e2, a, b)
+{
+	assert forall|j: int| a <= j < b implies #[trigger] tokv(ts, e2, j) != BaseToken::EndOfSource by {
+		assert(tokv(ts, e1, j) != BaseToken::EndOfSource);
+	}
 }
